@@ -8,6 +8,7 @@ import (
 	"fmt"
 	"io"
 	"log"
+	"math"
 	"os"
 	"sort"
 	"strings"
@@ -25,9 +26,13 @@ func TestMain(m *testing.M) {
 }
 
 // Findings on the unchanged tree that wait for a decision (props/c04/FINDINGS.md) would be listed here:
-// the generators steer around the signature of a pending or known finding and count it. None at present
-// (`goalign subseq -r` over the whole alignment was repaired by 711de4d and is judged unrestricted).
+// the generators steer around the signature of a pending or known finding and count it
+// (none at present: 711de4d, d923a70 and 558bb27 repaired the three findings of props/c04/FINDINGS.md).
 var pending = map[string]bool{}
+
+// sumOverflows: start >= 0, length >= 0 and start+length does not fit in an int (the overflow defects of
+// RefCoordinates and `subseq --step` were repaired by d923a70 and 558bb27; such calls are judged like any other)
+func sumOverflows(s, n int) bool { return s >= 0 && n >= 0 && n > math.MaxInt-s }
 
 // VERIF_NO_PENDING=1 judges the pending signatures strictly (to try a candidate repair in a scratch copy)
 func steerAround(key string) bool {
@@ -80,7 +85,26 @@ func rowByName(rows []gen.Row, name string) (gen.Row, bool) {
 }
 
 // winValid: the documented bounds of a window (start, length) on an alignment of length l
-func winValid(l, s, n int) bool { return s >= 0 && s <= l && n >= 0 && s+n <= l }
+// (written without the sum start+length, which overflows for huge arguments)
+func winValid(l, s, n int) bool { return s >= 0 && s <= l && n >= 0 && n <= l-s }
+
+// hugeInts: the quantifier says "all integer arguments"
+var hugeInts = []int{math.MaxInt, math.MaxInt - 1, math.MaxInt/2 + 1, math.MinInt, math.MinInt + 1}
+
+func isHuge(v int) bool { return v > 1<<40 || v < -(1<<40) }
+
+// bint draws an integer argument: a boundary value around n, a uniform one, or (1 in 6) a huge one
+func bint(t *rapid.T, n int, label string) int {
+	if uni(t, 6, label+"_huge") == 0 {
+		return hugeInts[uni(t, len(hugeInts), label+"_h")]
+	}
+	return gen.Boundary(t, n, label)
+}
+
+// hugeLen draws a length that makes start+length overflow or nearly so
+func hugeLen(t *rapid.T, s int, label string) int {
+	return []int{math.MaxInt, math.MaxInt - 1, math.MaxInt/2 + 1, math.MaxInt - s, math.MaxInt - s + 1}[uni(t, 5, label)]
+}
 
 // sameAli compares an alignment returned by goalign with the expected rows
 func sameAli(al align.Alignment, want []gen.Row, what string) error {
@@ -243,7 +267,7 @@ func genRefName(t *rapid.T, a gen.Ali) string {
 // genWindow draws (start,length): valid by construction half of the time (with the window touching
 // the ends often), boundary biased otherwise
 func genWindow(t *rapid.T, l int, label string) (s, n int) {
-	kind := uni(t, 8, label+"_kind")
+	kind := uni(t, 9, label+"_kind")
 	if l == 0 {
 		kind = 7
 	}
@@ -260,9 +284,12 @@ func genWindow(t *rapid.T, l int, label string) (s, n int) {
 	case 4: // one past the end
 		s = rapid.IntRange(0, l).Draw(t, label+"_s")
 		n = l - s + 1
+	case 8: // a start inside, a length so large that start+length overflows (or nearly)
+		s = rapid.IntRange(0, l).Draw(t, label+"_s")
+		n = hugeLen(t, s, label+"_hl")
 	default:
-		s = gen.Boundary(t, l, label+"_bs")
-		n = gen.Boundary(t, l, label+"_bn")
+		s = bint(t, l, label+"_bs")
+		n = bint(t, l, label+"_bn")
 	}
 	return
 }
@@ -293,7 +320,7 @@ func genWin(t *rapid.T) winCase {
 	if rapid.Bool().Draw(t, "trimvalid") {
 		c.Trim = rapid.IntRange(0, l-1).Draw(t, "trim")
 	} else {
-		c.Trim = gen.Boundary(t, l, "trimb")
+		c.Trim = bint(t, l, "trimb")
 	}
 	c.FromStart = rapid.Bool().Draw(t, "fromstart")
 	return c
@@ -301,13 +328,15 @@ func genWin(t *rapid.T) winCase {
 
 func winClass(l, s, n int) string {
 	switch {
+	case isHuge(s) || isHuge(n):
+		return "huge"
 	case s < 0:
 		return "start<0"
 	case s > l:
 		return "start>L"
 	case n < 0:
 		return "len<0"
-	case s+n > l:
+	case n > l-s:
 		return "overhang"
 	case n == 0:
 		return "empty"
@@ -513,6 +542,8 @@ func checkWin(c winCase) (o pbt.Outcome, err error) {
 	o.NonTrivial = isBoundary(c.Start, l) || isBoundary(c.Len, l) || isBoundary(c.Start+c.Len, l) || isBoundary(c.Trim, l) || c.Cut == 0 || c.Cut == l
 	o.Class("window:%s", winClass(l, c.Start, c.Len))
 	switch {
+	case isHuge(c.Trim):
+		o.Class("trim:huge")
 	case c.Trim < 0:
 		o.Class("trim<0")
 	case c.Trim == 0:
@@ -557,7 +588,7 @@ func genSiteList(t *rapid.T, l int, label string) []int {
 		case rapid.IntRange(0, 2).Draw(t, label+"_in") != 0 && l > 0:
 			out = append(out, rapid.IntRange(0, l-1).Draw(t, label))
 		default:
-			out = append(out, gen.Boundary(t, l, label+"_b"))
+			out = append(out, bint(t, l, label+"_b"))
 		}
 	}
 	return out
@@ -768,6 +799,12 @@ func checkSites(c sitesCase) (o pbt.Outcome, err error) {
 			break
 		}
 	}
+	for _, s := range append(append([]int{}, c.Sites...), c.RefSites...) {
+		if isHuge(s) {
+			o.Class("sites:huge-argument")
+			break
+		}
+	}
 	switch {
 	case !known:
 		o.Class("refsites:unknown-reference")
@@ -818,7 +855,13 @@ func genRef(t *rapid.T) refCase {
 			jumps = append(jumps, i)
 		}
 	}
-	switch k := uni(t, 12, "kind") - 1; {
+	switch k := uni(t, 14, "kind") - 1; {
+	case k == 11: // a start on the reference, a length so large that start+length overflows
+		c.Start = rapid.IntRange(0, np).Draw(t, "s")
+		c.Len = hugeLen(t, c.Start, "hl")
+	case k == 12: // a huge start, a small length
+		c.Start = []int{math.MaxInt, math.MaxInt - 1, math.MaxInt/2 + 1}[uni(t, 3, "hs")]
+		c.Len = rapid.IntRange(1, 3).Draw(t, "n")
 	case len(jumps) > 0 && k <= 1: // valid, across a gap of the reference
 		j := jumps[rapid.IntRange(0, len(jumps)-1).Draw(t, "jump")]
 		c.Start = rapid.IntRange(0, j).Draw(t, "s")
@@ -842,8 +885,8 @@ func genRef(t *rapid.T) refCase {
 		c.Start = rapid.IntRange(0, np).Draw(t, "s")
 		c.Len = 0
 	default:
-		c.Start = gen.Boundary(t, np, "bs")
-		c.Len = gen.Boundary(t, np, "bn")
+		c.Start = bint(t, np, "bs")
+		c.Len = bint(t, np, "bn")
 	}
 	return c
 }
@@ -855,8 +898,11 @@ func checkRefCoord(o *pbt.Outcome, a gen.Ali, name string, s, n int) (valid, gap
 	al := gen.MustBuild(a)
 	ref, known := rowByName(rows, name)
 	p := nonGap(ref.Seq)
+	if known && sumOverflows(s, n) {
+		o.Class("refcoord:start+length-overflows")
+	}
 	as, an, e := al.RefCoordinates(name, s, n)
-	if !known || s < 0 || n < 0 || s+n > len(p) {
+	if !known || s < 0 || n < 0 || n > len(p)-s {
 		if e == nil {
 			return false, false, fmt.Errorf("RefCoordinates(%q,%d,%d): reference %q has %d residues (known=%v) but the call succeeded with (%d,%d)", name, s, n, ref.Seq, len(p), known, as, an)
 		}
@@ -916,6 +962,8 @@ func checkRef(c refCase) (o pbt.Outcome, err error) {
 		o.Class("refcoord:valid-no-gap-inside")
 	case c.Len == 0:
 		o.Class("refcoord:zero-length")
+	case isHuge(c.Start) || isHuge(c.Len):
+		o.Class("refcoord:huge-argument")
 	case c.Start < 0 || c.Len < 0:
 		o.Class("refcoord:negative")
 	default:
